@@ -64,6 +64,20 @@ def lint_sources():
                 txt = re.sub(r"\(\*.*?\*\)", "", txt, flags=re.S)
                 for m in pat.finditer(txt):
                     bad.append(f"{root}/{fn}: {m.group(0)}")
+                # Variable / Hypothesis / Context outside a Section would declare an axiom
+                depth = 0
+                for sent in re.split(r"\.\s", txt):
+                    t = sent.strip()
+                    if re.match(r"(Section|Module)\b", t) and ":=" not in t:
+                        depth += 1
+                    elif re.match(r"End\b", t):
+                        depth = max(0, depth - 1)
+                    elif depth == 0 and re.match(r"(Local\s+|Global\s+)?(Variable|Variables|Hypothesis|Hypotheses|Context)\b", t):
+                        bad.append(f"{root}/{fn}: {t[:40]} outside a section")
+    for extra in ("_CoqProject",):
+        txt = open(os.path.join(COQ, extra)).read()
+        if "impredicative-set" in txt or "type-in-type" in txt:
+            bad.append(f"{extra}: forbidden flag")
     return bad
 
 
